@@ -27,12 +27,16 @@ CLAIMS = {
     "C03": ("proof", "Lemma-level proof. Writes of the mirroring functions go only to the other side and target the entry's own peer "
             "(upload_synced, delete_synced, embrace_change dispatch); after a successful upload both sides are recorded as synced "
             "(sync_hash / sync_path), which is what prevents the echo; children of a renamed folder keep their relative position "
-            "(_update_kids). Tree equality at quiescence for all one-sided histories is NOT proved.",
-            "Same contracts and assumptions as C02; create/rename/mkdir mirroring functions are not yet under contract."),
+            "(_update_kids); creating a peer is one create at the translated path, an object already there is adopted only if it holds "
+            "the same content, both sides recorded as synced with the created id (_create_synced, create_synced fault table); a rename "
+            "is one rename of the entry's own peer to the translated path, recorded on both sides, and the only other write is the "
+            "removal of a fully synced entry in the way (handle_rename); a new folder is one mkdirs of the translated path "
+            "(unsafe_mkdir_synced, get_folder_file_conflict). Tree equality at quiescence for all one-sided histories is NOT proved.",
+            "Same contracts and assumptions as C02; handle_cloud_file_not_found_error, rename_to_fix_conflict and resolve_conflict are arbitrary callees in these lemmas."),
     "C04": ("proof", "Lemma-level proof. Deletion propagation (one delete of the peer, entry tombstoned and discarded, never while a "
             "pending creation exists at the path) and child-path maintenance on folder rename are proved as function contracts. "
             "Exact merge of arbitrary non-conflicting histories is NOT proved.",
-            "Same contracts and assumptions as C02; the non-empty-folder wait (_handle_dir_delete_not_empty) has its own lemma; handle_rename is not yet under contract."),
+            "Same contracts and assumptions as C02; the non-empty-folder wait (_handle_dir_delete_not_empty) and handle_rename / unsafe_mkdir_synced have their own lemmas."),
     "C05": ("proof", "Lemma-level proof of the conflict shortcut: in handle_split_conflict the deferred side's bytes are hashed with the "
             "other side's hash function and compared with its recorded hash; equal content is merged silently (no resolver call, no "
             "provider write, duplicate entry discarded); the resolver path is taken at most once and only for different content; "
@@ -48,12 +52,16 @@ CLAIMS = {
     "C07": ("proof", "Lemma-level proof of the effect ordering that makes every crash point recoverable: a sync step ends with exactly one "
             "storage commit as its last effect (none on temporary-error back-off, at most one otherwise); an event is applied and "
             "committed in one locked step; the cursor is written after the events it covers; equal content is recognised rather "
-            "than duplicated. Convergence after an arbitrary crash instant is NOT proved.",
+            "than duplicated (split conflict, and _create_synced adopts an object in the way only for equal content hashed with the "
+            "right function); a commit hands every dirty entry to the storage writer and forgets the dirty set only afterwards (a "
+            "failed write forgets nothing); the storage writer's decision table (create / update in place / delete trash / nothing) "
+            "writes the entry's serialisation at that moment. Convergence after an arbitrary crash instant is NOT proved.",
             "pre_sync / sync are stubbed in the step lemma; crash semantics of the storage back end are assumed (SQLite autocommit)."),
     "C08": ("proof", "Lemma-level proof of the dirty discipline on the real bodies of SideState.__setattr__, SyncState.updated, "
             "_change_oid: after assigning an oid or a change flag every entry whose persisted fields changed -- including an entry "
             "ousted from the oid -- is in the dirty set, and a sync step commits. The entry codec (serialize / deserialize through a "
-            "structure-preserving msgpack model) round-trips every persisted field; the commit loop is not yet under contract. "
+            "structure-preserving msgpack model) round-trips every persisted field; the commit loop writes every dirty entry and clears the set only on success; the "
+            "writer's decision table (create / update / delete / nothing) stores the serialisation of the entry as it is then. "
             "One known finding (D6) on pending-set exactness.",
             "Indexes are open maps (touched bindings exact, rest arbitrary); entries found through an index are assumed to satisfy the index invariant."),
     "C09": ("proof", "Proof (sequential): create / update / delete / read of SqliteStorage against the abstract map (tag, id) -> bytes, "
@@ -87,9 +95,11 @@ CLAIMS = {
             "String builtins follow specifications (strip/find/replace/lower as functions with axioms) conformance-tested against CPython each run; normalize_path's own body is not proved."),
     "C14": ("proof", "Lemma-level proof. Events without an id are ignored (except a folder deletion matched by path); a walk event that "
             "changes nothing is ignored; pre_sync always re-reads both sides before an entry is acted on; re-reading records the "
-            "provider's truth, never changes the id, flags unseen changes and tombstones vanished objects. Independence of the final "
-            "trees from event order is NOT proved.",
-            "state.update is a contract here; duplicate-delivery idempotence of update() is not yet under contract."),
+            "provider's truth, never changes the id, flags unseen changes and tombstones vanished objects; applying an event (no "
+            "prior id) updates the entry already known under that id in place -- no second entry -- or indexes a new one, records id, "
+            "path, hash, existence, flags the side changed and pending, and leaves the other side and all last-synced markers "
+            "untouched (SyncState.update + update_entry, 24 exhaustive cases). Independence of the final trees from event order is NOT proved.",
+            "In the update lemma the index writers _change_oid/_change_path are their contracts (bodies proved in state_index.py); the prior_oid (rename) branch of update() is not under contract."),
     "C15": ("proof", "Proof of the lock discipline as a permission contract checked over the whole repository on every run: every public "
             "entry point either establishes state.lock before any write of sync state or is listed as a known finding (6 public API "
             "methods write state without the lock); event application is proved to update and commit while holding the lock and to "
